@@ -338,9 +338,19 @@ func (r *resource) ResetEvent() {
 // The last call to the callback will always be with nil, indicating
 // that the query event duration has expired.
 func (r *resource) QueryEvent(cb func(QueryRequest)) {
+	// QueryEvent may be called from outside a worker goroutine, such as from a
+	// store callback, while the service is being shut down.
+	r.s.mu.Lock()
+	nc, tq := r.s.nc, r.s.queryTQ
+	r.s.mu.Unlock()
+	if nc == nil {
+		cb(nil)
+		r.s.errorf("Failed to subscribe to query event: service not started")
+		return
+	}
 	qsubj := nats.NewInbox()
 	ch := make(chan *nats.Msg, queryEventChannelSize)
-	sub, err := r.s.nc.ChanSubscribe(qsubj, ch)
+	sub, err := nc.ChanSubscribe(qsubj, ch)
 	if err != nil {
 		cb(nil)
 		r.s.errorf("Failed to subscribe to query event: %s", err)
@@ -358,7 +368,7 @@ func (r *resource) QueryEvent(cb func(QueryRequest)) {
 
 	go qe.startQueryListener()
 
-	r.s.queryTQ.Add(qe)
+	tq.Add(qe)
 	vhook("qe.added", r.rname, qsubj)
 }
 
